@@ -24,10 +24,35 @@ def problem_interp(ctx, cls, inst=None) -> Interp:
     except Unsupported as e:
         raise AnalysisError(f"{cls.name}.__init__: {e}") from e
     I.axes.update({"STATE": ("sdim",), "ACTION": ("adim",), "EVENT": ("edim",)})
+    _vector_lengths(ctx, cls, I)
     I.ctor_scans = list(I.scans)
     I.scans.clear()
     I.leaf_calls.clear()
     return I
+
+
+def _vector_lengths(ctx, cls, I) -> None:
+    """STATE / ACTION / EVENT have as many components as their spaces have columns, when the column analysis of the spaces applies
+    (used to read `x[:-1]` as `x[0 : len(x) - 1]`); silently absent otherwise"""
+    from ..loader import AnalysisError as _AE
+    from ..segments import Domain, SegEval, Vec
+    from ..terms import T_add, ZERO
+    from .common import backing_attr
+
+    try:
+        se = SegEval(I, Domain({}), {})
+    except Exception:  # noqa: BLE001
+        return
+    for sym, attr in (("STATE", "state_space"), ("ACTION", "action_space"), ("EVENT", "random_event_space")):
+        try:
+            cols = se.columns(I.attrs[backing_attr(ctx, cls, attr)])
+        except (_AE, KeyError, Unsupported, IndexError, TypeError, AttributeError):
+            continue
+        if isinstance(cols, Vec) and cols.segs:
+            n = ZERO
+            for cnt, _iv in cols.segs:
+                n = T_add(n, cnt)
+            I.sym_shapes[sym] = (n,)
 
 
 def transition_terms(ctx, cls, inst=None):
